@@ -10,9 +10,12 @@ export CARGO_NET_OFFLINE=true RSTREAM_TEST_TIMEOUT=90
 git checkout -q -- . ; rm -f tests/demo_mutant.rs
 git apply --check "$out/patch.diff" || { echo '{"error":"patch does not apply"}' > "$out/confirm.json"; exit 1; }
 cp "$out/demo.rs" tests/demo_mutant.rs
-cargo test --offline -j 8 --test demo_mutant -- --test-threads 1 > "$out/c_clean.log" 2>&1; clean=$?
+cargo test --offline -j 8 --test demo_mutant --no-run > /dev/null 2>&1
+NS=""; if unshare -n true 2>/dev/null; then NS="unshare -n"; fi
+$NS sh -c 'ip link set lo up 2>/dev/null; exec cargo test --offline -j 8 --test demo_mutant -- --test-threads 1' > "$out/c_clean.log" 2>&1; clean=$?
 git apply "$out/patch.diff"
-cargo test --offline -j 8 --test demo_mutant -- --test-threads 1 > "$out/c_patch.log" 2>&1; patched=$?
+cargo test --offline -j 8 --test demo_mutant --no-run > /dev/null 2>&1
+$NS sh -c 'ip link set lo up 2>/dev/null; exec cargo test --offline -j 8 --test demo_mutant -- --test-threads 1' > "$out/c_patch.log" 2>&1; patched=$?
 rm -f tests/demo_mutant.rs
 cargo test --workspace --no-run --offline -j 8 > "$out/c_suite_build.log" 2>&1
 # private network namespace: other suites on this machine bind the same 127.x.y.z test sockets
